@@ -10,7 +10,7 @@ TReset == Is("BlkReset") /\ BReset([cap |-> Ev.cap, ro |-> Ev.ro, flush |-> Ev.f
 TInfo  == Is("Info") /\ Info(Ev.capacity, Ev.readonly)
 TCall  == Is("Call") /\ Call(Ev)
 TReq   == Is("DevReq") /\ DevReq(Ev.tok, Ev)
-TResp  == Is("DevResp") /\ DevResp(Ev.tok, Ev.status, Ev.dg)
+TResp  == Is("DevResp") /\ DevResp(Ev.tok, Ev.status, Ev.dg, IF "id" \in DOMAIN Ev THEN Ev.id ELSE <<>>)
 TDone  == Is("DevDone") /\ DevDone(Ev.tok)
 TRet   == Is("Ret") /\ Ret(Ev)
 TPeek  == Is("Peek") /\ Peek(Ev.r)
